@@ -151,4 +151,15 @@ SPECS = {
   "exhaustive_note": "the 8x8 hold-time grid x 5 traffic patterns x 2 directions is enumerated completely on every run",
   "assumptions": ENGINE_V + ["tolerance 5 ms of virtual time absorbs the injected <= 2 us schedule-point delays and the 1 ms settle barrier"],
  },
+
+ "C07": {
+  "level": "exploration",
+  "passes": [fsm("^TestC07$")],
+  "rule": "grid: 6 dominance configurations (local id <, >, = remote id x local AS <, > remote AS) x modes {ordered (quiescence barrier between the two OPENs), simul (both OPENs at one virtual instant), estfirst (one connection Established while the other is in OpenSent), "
+          "race-est / race-ka (the first connection's KEEPALIVE at the same instant as the second's OPEN), race-close, race-bad (victim closes / sends a bad header at that instant)} x which connection gets its OPEN first x whether the inbound connection arrives before the dial completes "
+          "x 24 (quick) / 1200 (thorough) seeds of virtual delays at the FSM, peer-manager and collision-select schedule points. Oracle: ordered/simul/estfirst demand the RFC 4271 6.8 survivor exactly; race modes demand at most one survivor; always: a single Cease then close on the loser, "
+          "survivor saw exactly OPEN KEEPALIVE, establishes on KEEPALIVE, delivers a subsequent UPDATE, and a further inbound connection is refused silently. evidence.events lists the observed outcome per mode. distinct = distinct (configuration, mode, order, outcome, transition/callback trace).",
+  "exhaustive_note": "the configuration x mode x order grid is enumerated completely on every run; schedules within a cell are sampled",
+  "assumptions": ENGINE_V,
+ },
 }
